@@ -1,6 +1,7 @@
 """C15 - pumping power and modelled pressures stay physical."""
 import contextlib
 import json
+import os
 import math
 import re
 import types
@@ -35,7 +36,9 @@ META = {
              'random temperature/flow/depth incl. laminar flow and the regime switch; non-trivial = distinct (regime pair, well); '
              '(d) the four hydraulic functions (index and impedance model, production and injection) called on the real friction '
              'factors with everything equal but one diameter, with and without the friction term, plus whole-run pairs through '
-             'main() differing in one well diameter (Ramey off): pump pressure, its friction share and pumping power must not grow'),
+             'main() differing in one well diameter (Ramey off): pump pressure, its friction share and pumping power must not grow; '
+             '(e) static pressure and the hydrostatic correlation on random and on every run\'s inputs, intermediates recorded from '
+             'the real functions; (f, thorough) every offline example incl. SBT / SUTRA / cylindrical wellbores: pumping power >= 0'),
     'trusted_base': ['Coq 8.16.1 kernel + vm_compute (no native_compute)',
                      'all C15 theorems: Closed under the global context (no axioms)',
                      'hand-written models coq/Model/Pressure.v, Pumping.v, Friction.v tied to WellBores.py by exact-call and '
@@ -43,6 +46,8 @@ META = {
     'modelled': ['WellBores.ReservoirPressurePredictor', 'WellBores.InjectionReservoirPressurePredictor',
                  'overpressure branch of WellBores.Calculate', 'pumping-power formulas and clamps of both hydraulic models',
                  'Darcy-Weisbach pressure loss and laminar friction factor; CoolProp density/viscosity, Colebrook iterate, pi: data',
+                 'GeoPHIRESUtils.static_pressure_MPa, WellBores.get_hydrostatic_pressure_kPa (math.exp, ** and CoolProp density: data recorded '
+                 'from the real call)', 'second WellBores.Calculate pass of district-heating runs (Model.Calculate)',
                  'composition of DPProdWell / DPInjWell / DPOverall from friction, gravity, drawdown and wellhead terms in the four '
                  'hydraulic functions (vapour pressure / wellhead and plant-outlet pressure: data)'],
     'assumptions': ['float rounding of the arithmetic is not modelled (predictors are also executed on exact rationals)',
@@ -52,8 +57,16 @@ META = {
     'fingerprint': [('src/geophires_x/WellBores.py', f) for f in (
         'ReservoirPressurePredictor', 'InjectionReservoirPressurePredictor', 'WellPressureDrop', 'InjectionWellPressureDrop',
         'ProdPressureDropsAndPumpingPowerUsingImpedenceModel', 'InjPressureDropsAndPumpingPowerUsingImpedenceModel',
-        'ProdPressureDropAndPumpingPowerUsingIndexes', 'InjPressureDropAndPumpingPowerUsingIndexes', 'WellBores.Calculate')],
+        'ProdPressureDropAndPumpingPowerUsingIndexes', 'InjPressureDropAndPumpingPowerUsingIndexes', 'WellBores.Calculate',
+        'get_hydrostatic_pressure_kPa')] + [('src/geophires_x/GeoPHIRESUtils.py', 'static_pressure_MPa')],
 }
+META['level_text'] += (' Round 2: the static column rho*g*depth and the rational part of the built-in hydrostatic correlation are modelled (positive; '
+                       'monotone in depth up to the vertex 1/(CT*grad), refuted beyond; lower bound by the corrected linear column), with exp / '
+                       'Trock**-0.552 / CoolProp density recorded from the real call; velocity, Reynolds number (= rho v D/mu), the laminar/'
+                       'turbulent switch (2300 goes to the turbulent branch, one branch per series decided by the average Re) and the per-step '
+                       'Darcy-Weisbach loss are proved and each intermediate is read out of the real functions; the second WellBores.Calculate '
+                       'of district-heating runs is modelled (TypeError with overpressure: refuted clause + finding); thorough tier checks '
+                       'pumping power >= 0 on every offline example of every wellbore class (SBT, SUTRA, ...).')
 META['level_text'] += (' The friction term is proved to enter every pump pressure with a plus sign (C15_friction_enters_with_plus_sign), so pump '
                        'pressure and clamped pumping power of both models never grow with the diameter under the same premise '
                        '(C15_prod/inj_pump_vs_diameter_partial, C15_impedance_vs_friction); tied by calling the four real hydraulic functions '
@@ -756,10 +769,75 @@ def check_hydro(ctx, specs):
 
 
 # ------------------------------------------------------------------------------------------------
+# (f) every example that runs offline, all wellbore classes (SBT, SUTRA, cylindrical ...): pumping power never negative
+# ------------------------------------------------------------------------------------------------
+EX_SERIES = ('PumpingPower', 'PumpingPowerProd', 'PumpingPowerInj')
+EX_CHILD = """
+import json, sys
+from lib import runner, snapshot
+inp, out, scratch = sys.argv[1:4]
+runner._init_worker(scratch)
+r = runner.run_text(open(inp).read(), scratch)
+S = snapshot.S(r['snap']) if r['snap'] else None
+json.dump({'ok': r['ok'], 'error': r['error'], 'cls': r['snap']['wellbores']['__class__'] if S else None,
+           'series': {a: S.v('wellbores', a, None) for a in %r} if S else None}, open(out, 'w'))
+""" % (EX_SERIES,)
+
+
+def examples_start(ctx, names=None):
+    """the slow examples (SBT, SUTRA, district heating) each in a process of its own, started first so that they overlap with
+    the kernel work and can be abandoned at a deadline; the fast ones go through the worker pool when collecting"""
+    import subprocess
+    import time
+    todo = [(n, t) for n, t in configs.example_texts(slow=True) if names is None or n in names]
+    procs = []
+    for n, t in todo:
+        if n in configs.SLOW_EXAMPLES:
+            inp = ctx.scratch / ('ex_' + n)
+            inp.write_text(t)
+            out = inp.with_suffix('.json')
+            procs.append((n, subprocess.Popen([fw.PY, '-B', '-c', EX_CHILD, str(inp), str(out), str(ctx.scratch)],
+                                              stdout=subprocess.DEVNULL, stderr=subprocess.DEVNULL), out))
+    return {'t0': time.time(), 'slow': procs, 'fast': [(n, t) for n, t in todo if n not in configs.SLOW_EXAMPLES]}
+
+
+def examples_collect(ctx, st, deadline_s=720):
+    import time
+    res = []
+    for (n, _), r in zip(st['fast'], runner.run_many(ctx, [t for _, t in st['fast']])):
+        S = snapshot.S(r['snap']) if r['snap'] else None
+        res.append((n, {'error': r['error'], 'cls': r['snap']['wellbores']['__class__'] if S else None,
+                        'series': {a: S.v('wellbores', a, None) for a in EX_SERIES} if S else None}))
+    for n, proc, out in st['slow']:
+        try:
+            proc.wait(timeout=max(1, st['t0'] + deadline_s - time.time()))
+            res.append((n, json.loads(out.read_text())))
+        except Exception:   # not finished by the deadline (or no result written): abandoned, counted, not a verdict
+            proc.kill()
+            ctx.count('examples', abandoned=n)
+    terms, owners = [], []
+    for n, r in res:
+        if not r.get('series'):
+            ctx.count('examples', no_snapshot=f'{n}: {str(r.get("error"))[:50]}')
+            continue
+        lists = {a: v for a, v in r['series'].items() if isinstance(v, list) and v and all(isinstance(x, (int, float)) for x in v)}
+        for a, v in lists.items():
+            terms.append(f'all_nonneg {QL(_f(v))}')
+            owners.append((n, a, v))
+        ctx.count('examples', evaluations=1, nontrivial_keys=[(r['cls'], tuple(sorted(lists)))], wellbore_class=r['cls'])
+    bad = fw.kernel_bools(ctx, 'example_checkers', ['Model.Pumping'], terms, shard=_shard(len(terms)))
+    for i in bad[:6]:
+        n, a, v = owners[i]
+        ctx.violate('property', f'example:{n}:{a}:negative', f'{a} is negative at some time step in tests/examples/{n} (min {min(v)})',
+                    inp={'desc': {'part': 'example', 'name': n}}, expected=f'{a} >= 0 at every time step', observed=v[:40])
+
+
+# ------------------------------------------------------------------------------------------------
 def correspondence(ctx, proofs_ok=True):
     import time
     W, t = _W(), [time.time()]
     lap = lambda name: (t.append(time.time()), ctx.note(f'{name}: {t[-1] - t[-2]:.1f} s'))
+    examples = examples_start(ctx) if not ctx.quick or os.environ.get('VERIF_C15_EXAMPLES') else None
     check_pred(ctx, pred_cases(ctx, W))
     lap('predictors')
     specs = json.loads((CORPUS / 'friction_seeds.json').read_text()) + [sweep_spec(ctx) for _ in range(ctx.n(35, 700))]
@@ -775,6 +853,9 @@ def correspondence(ctx, proofs_ok=True):
     check_runs(ctx, cfgs, results[:len(cfgs)])
     check_pairs(ctx, pairs, results[len(cfgs):])
     lap('snapshot checks')
+    if examples:
+        examples_collect(ctx, examples, deadline_s=int(os.environ.get('VERIF_C15_EXAMPLE_DEADLINE', 720)))
+        lap('examples (all wellbore classes)')
 
 
 def search(ctx):
@@ -810,6 +891,8 @@ def replay(ctx, data):
         for c in sweep_cases(d):
             print('d =', float(c['d']), 'laminar' if c['lam'] else 'turbulent', 'f =', [float(x) for x in c['f']], 'DP[kPa] =', [float(x) for x in c['dp']])
         check_friction(ctx, [d])
+    elif part == 'example':
+        examples_collect(ctx, examples_start(ctx, names=[d['name']]), deadline_s=3600)
     elif part == 'hydro':
         check_hydro(ctx, [d])
     elif part == 'pump':
